@@ -75,7 +75,7 @@ CONSTS = [
     ("REQUEST_TIMEOUT_SECS", "src/protocol/request_response/mod.rs",
      r"const\s+REQUEST_TIMEOUT\s*:\s*Duration\s*=\s*Duration::from_secs\(([^)]+)\)"),
     # C12
-    ("BACKPRESSURE_BOUNDARY", "src/substream/mod.rs", const("BACKPRESSURE_BOUNDARY")),
+    # (C12 also uses BACKPRESSURE_BOUNDARY, defined above for C04)
 ]
 
 
@@ -133,7 +133,11 @@ def main():
         "Open Scope N_scope.",
         "",
     ]
+    seen = set()
     for name, _, _ in CONSTS:
+        if name in seen:
+            continue
+        seen.add(name)
         if name in vals:
             lines.append("Definition %s : N := %d." % (name, vals[name]))
     text = "\n".join(lines) + "\n"
